@@ -113,6 +113,66 @@ CHECKS["C05"] = dict(cat="exploration", engine="Determinism", ref="§5 C05",
          "sizes, working directories and program orders; TLC validates that the container hash and the per-cycle digests (canonical variable "
          "state, faults, runtime events, output image) do not depend on the process.",
     note="differential sampling across processes; the specification contributes the invariant and the RuntimeCycle script space")
+CHECKS["C12"] = dict(cat="exploration", engine="ParseSink", ref="§5 C12",
+    tech="TLA+ ParseSink spec (marker interface -> event stream -> tree sink, model-checked with TLC) + TLC-exported and seeded random "
+         "input texts run through the real lexer/parser/tree in child processes, traces validated by TLC against the same contract operators",
+    text="TLC explores every event stream the parser's marker interface can produce (nested nodes, forward-parent chains from precede(), "
+         "bumps past the end, errors) over every small token list with trivia anywhere, replays it through the sink model and checks "
+         "EmittedIsPrefix, NoUnderflow, Lossless, TreeIsIntended, ErrorsInside and TriviaInvariant. TLC also exports the input space: every "
+         "sequence of lexical classes up to length 2 (quick) / 3 (thorough) over a 44-class alphabet, single Delete/Duplicate/Swap/Truncate/"
+         "Splice mutations of corpus programs, InsertTrivia positions, and simulated 40-atom soups; a seeded generator adds random soups, "
+         "mutated corpus programs, random unicode, nesting up to 200 statement/type and 500 expression levels. Every text is lexed and parsed "
+         "by trust_syntax in child processes (panics, aborts, stack overflows, hangs recorded as events); TLC validates per text that tokens "
+         "tile [0,n), the tree is balanced and its text equals the input, error ranges lie in [0,n], a second parse gives the same result, "
+         "and for error-free texts that the tree shape is unchanged after inserting blanks, newlines or block comments between two tokens.",
+    note="inputs are sampled (not all UTF-8 strings); nesting bounded at the stated depth on an 8 MiB stack / 4 GiB address space; tree text "
+         "compared by length and SHA-256; trusts TLC and the harness projection")
+CHECKS["C18"] = dict(cat="model_checking", engine="ControlAuth", ref="§5 C18",
+    tech="TLA+ ControlAuth spec (gate pipeline parse -> authenticate -> authorise -> debug gate -> dispatch, model-checked with TLC over every admissible role table) + complete enumeration of the real dispatcher and hostile request lines against a real ControlServer, every exchange trace-validated by TLC",
+    text="TLC checks on every admissible (required role x mutating x debug-class) table, every endpoint configuration, credential and "
+         "well-formedness class that a request is performed only with a sufficient role, unauthenticated requests are inert and carry no data "
+         "when a token is configured, mutating kinds need more than viewer, debug-class kinds are refused while debugging is off, the role order "
+         "is monotone and malformed lines get an error reply. Every string literal of control.rs / control/handlers/*.rs is probed through "
+         "ControlServer on a unix socket under every credential; each acknowledged request type (53) x parameter variants x 9 credentials x 8 "
+         "endpoint configurations, plus TLC-exported behaviours and seeded random / malformed lines, is executed with state probes before and "
+         "after; the required role is observed per request kind and must be an admissible monotone threshold, and every exchange must be an "
+         "outcome the specification allows. Panics, aborts and positively wedged handlers are recorded as events.",
+    note="the role table itself is a parameter (only its admissibility is checked); reply wording is used only in the permissive direction; "
+         "a handler that was entitled to run and never replies is reported as NOTE (debug.evaluate self-deadlock on the metadata lock), not as a violation; "
+         "effect detection is limited to the listed probes")
+CHECKS["C11"] = dict(cat="exploration", engine="StbcContainer", ref="§5 C11",
+    tech="TLA+ StbcContainer spec (framing rules, encoder layout, life cycle) model-checked with TLC; TLC-exported and seeded structure-aware mutants run on the real encoder/decoder/validator/metadata/apply code in a child process with an address-space limit, traces validated by TLC",
+    text="TLC checks on every section table of <=3 (thorough 4) entries over a grid of offsets/lengths and every combination of header defects that the "
+         "decision shaped like decode.rs equals the documented framing rules wherever the documentation decides, that accepted tables can be sliced inside "
+         "the file, that the encoder's layout is a valid frame that decodes back to the same sections, and the life-cycle invariants (emitted => decodes "
+         "and validates, broken framing / impossible array count => not decoded, pre-allocation bounded by the input). Layouts and (program shape x "
+         "section x field class x hostile value class) mutations exported by TLC, a systematic sweep over every array count, jump, offset/length and "
+         "section-table field, truncations at section boundaries, alias/subrange/array/struct type cycles, random blobs and raw byte edits (CRC "
+         "recomputed) are applied to containers the real compiler emits; decode, validate, metadata, apply_bytecode_bytes + warm restart and a real "
+         "ResourceCommand::ReloadBytecode on a resource thread run in a child with a 2 GiB address-space limit and an 8 MiB stack; panics, aborts and "
+         "hangs are recorded as events and TLC accepts only value/error outcomes and exact round trips for every emitted container.",
+    note="totality and the memory bound are sampled (model-generated mutants + rlimit), not proved for all byte strings; several framing corner cases are accepted either way; "
+         "round trip is demanded only for compiler-emitted containers; trusts the harness field walker")
+CHECKS["C14"] = dict(cat="model_checking", engine="DocSync", ref="§5 C14",
+    tech="TLA+ DocSync spec (editor edits by index and reports LSP positions, server applies positions, FIFO channel; model-checked with TLC, column-per-char and column-per-byte servers must violate InSync) + TLC-exported and random edit scripts run on the real trust-lsp binary over stdio JSON-RPC next to a reference server fed the editor's text in one didOpen, traces validated by TLC",
+    text="TLC checks InSync, QuiescentAgree and ReportsFaithful with the editor running ahead of the server over a FIFO channel and with multi-change "
+         "notifications, full-text changes and columns past the line end, and RoundTrip / PosRoundTrip on every text of up to 6 units over {a, e-acute, CJK, "
+         "astral emoji, LF, CRLF}; every (text, single change) pair up to the bound exported breadth-first, TLC -simulate scripts and seeded random ST "
+         "documents are fed to a long-lived trust-lsp (didOpen + didChange...); after EVERY notification its formatting, semanticTokens/full, documentSymbol "
+         "and pull-diagnostic answers must equal those of a server given the specification's editor text in one didOpen, and a prepareRename answer at an "
+         "identifier must carry that identifier's range in the editor's UTF-16 coordinates; server panics are recorded as events.",
+    note="lone CR, columns past the end of a CRLF line, columns inside a surrogate pair, lines past the end and inverted ranges are not judged (inconclusive); the reference is the same binary")
+CHECKS["C19"] = dict(cat="model_checking", engine="WebIde", ref="§5 C19",
+    tech="TLA+ WebIde spec: path confinement of the designed admission check over every path shape and every interleaving of the three-phase optimistic write with roles / expiry / write-disabled mode, model-checked with TLC (racy and parent-only variants must fail); model-enumerated + random paths x operations x session kinds on a sentinel tree, and sequential + multi-threaded call histories of the real WebIdeState, all trace-validated by TLC",
+    text="TLC checks that the designed admission check lets no path of <= 3 (thorough: 4) components over 27 component kinds land outside the project or on a "
+         "hidden entry for any of 7 operations, and explores every interleaving of open / write at the code's grain (unlocked disk read, locked session + role "
+         "check, refresh, version comparison, write) for 3 sessions with stale versions, expiry, viewer role, write-disabled requests and external edits, "
+         "checking DiskIsLastSuccess, NoLostUpdate, Chain, VersionsGrow and OnlyLiveEditorsMutate. Every model path shape plus seeded random ones is replayed "
+         "through list / tree / search / open / write / create / mkdir / rename / delete on a sentinel tree built from the model's own tree, with a complete "
+         "snapshot before and after each call; every effective mutation is repeated as viewer, expired, never-issued session and in write-disabled mode; "
+         "sequential scripts and free-running multi-threaded runs are recorded as Begin/End histories and TLC searches an ordering that explains every answer "
+         "and the final file content (linearizability against the model).",
+    note="concurrent runs use OS schedules (no pause hook); symlinks into hidden directories and hard links are not generated; session expiry is driven by advancing CLOCK_REALTIME of the harness child (clock_gettime interposition, self-tested)")
 NOT_YET = "check not built yet in this round (see DESIGN.md build order); no claim made"
 
 
@@ -146,6 +206,11 @@ def main():
             "add_only": True,
         },
         "engines": [
+            {"name": "StbcContainer", "path": "spec/StbcContainer.tla", "serves_properties": ["C11"], "kind_free_text": "TLA+ module + MC + trace refinement; harness sub-commands stbc-gen / stbc-run"},
+            {"name": "DocSync", "path": "spec/DocSync.tla", "serves_properties": ["C14"], "kind_free_text": "TLA+ module + MC instances + trace refinement; Python harness lib/docsync_harness.py driving the trust-lsp binary"},
+            {"name": "WebIde", "path": "spec/WebIde.tla", "serves_properties": ["C19"], "kind_free_text": "TLA+ module + MC instances + two trace refinements; harness sub-commands webide-gen / webide-run"},
+            {"name": "ParseSink", "path": "spec/ParseSink.tla", "serves_properties": ["C12"], "kind_free_text": "TLA+ module + MC + trace refinement; harness sub-commands parse-gen / parse-run"},
+            {"name": "ControlAuth", "path": "spec/ControlAuth.tla", "serves_properties": ["C18"], "kind_free_text": "TLA+ module + MC + trace refinement; harness sub-commands ctrlauth-gen / ctrlauth-run"},
             {"name": "Determinism", "path": "spec/Determinism.tla", "serves_properties": ["C05"], "kind_free_text": "TLA+ trace spec; harness sub-command det-child run in several processes"},
             {"name": "StCore", "path": "spec/StCore.tla", "serves_properties": ["C01", "C02", "C03"], "kind_free_text": "TLA+ reference evaluator + lemma instance + trace refinement; harness sub-commands stcore-gen / stcore-run / stwide"},
             {"name": "HirDb", "path": "spec/HirDb.tla", "serves_properties": ["C13"], "kind_free_text": "TLA+ module + MC instance + trace refinement; harness sub-commands hirdb-gen / hirdb-run"},
